@@ -44,6 +44,12 @@ Next ==
   \/ v[1] = "chunk" /\ \E k \in {"mag", "grv"}, f \in {"word-" \o c : c \in {"m1", "m2", "max", "min", "n1", "e5", "e4", "64k"}},
         p \in {q \in 0..90 : q % NChunks = v[2]} : v' = <<"mfile", k, "cof", f, p>>
 
+  \* malformed geoid rasters: byte faults at every offset of header and data, line faults, value classes for every header field
+  \/ v[1] = "chunk" /\ v[2] = 0 /\ v' = <<"gfile", "none", 0>>
+  \/ v[1] = "chunk" /\ \E f \in {"truncate", "flipbyte", "zero", "ff", "append"}, p \in {q \in 0..420 : q % NChunks = v[2]} : v' = <<"gfile", f, p>>
+  \/ v[1] = "chunk" /\ \E f \in {"dropline", "dupline"} \cup {"val-" \o c : c \in ValClasses}, p \in {q \in 0..10 : q % NChunks = v[2]} : v' = <<"gfile", f, p>>
+  \/ v[1] = "chunk" /\ \E f \in {"dim-" \o c : c \in ValClasses}, p \in {q \in 0..2 : q % NChunks = v[2]} : v' = <<"gfile", f, p>>
+
 \* the table is well formed
 TableInv ==
   /\ \A i, j \in 1..N : i # j => Entries[i].n # Entries[j].n
@@ -52,5 +58,5 @@ TableInv ==
   \* every sort rejects NaN for constructors and accepts an ordinary value
   /\ \A s \in {"a", "k0", "gm", "omega", "f", "fpos", "stdlat"} : Invalid(s, "nan") /\ ~Invalid(s, "tiny")
 
-Emit == v[1] \in {"call", "str", "nn", "mfile"} => PrintT(ToJson(v))
+Emit == v[1] \in {"call", "str", "nn", "mfile", "gfile"} => PrintT(ToJson(v))
 =============================================================================
